@@ -368,8 +368,11 @@ func vpSetup(outDir string) {
 		}
 		p.newSolo = func(cachePath string) func(net.IP, []byte) vpSolo {
 			return func(ip net.IP, body []byte) vpSolo {
-				msg, _ := netflow5.NewDecoder(ip, body).Decode()
-				if msg == nil {
+				// NetFlow v5 has no partially decodable datagram (no templates, no sets to skip): a datagram either
+				// decodes or it does not, so "decodes successfully" (C13) is "Decode reports no error" — written from
+				// the property, not from the worker's `decodedMsg != nil` test
+				msg, derr := netflow5.NewDecoder(ip, body).Decode()
+				if msg == nil || derr != nil {
 					return vpSolo{class: 'x'}
 				}
 				if !(msg.Flows != nil) {
@@ -844,7 +847,9 @@ func vpRunCase(line string, caseNo int) (string, string) {
 	if missing > 0 && !stalled { // a publish attempted while the queue is full is dropped by design
 		fail("missing %d", missing)
 	}
-	if dd != nCounts {
+	if dd > nCounts {
+		fail("decoded-count %d want %d: %d datagrams were counted as decoded although their Decode fails", dd, nCounts, dd-nCounts)
+	} else if dd != nCounts {
 		fail("decoded-count %d want %d", dd, nCounts)
 	}
 	if len(published) != nExpect && !stalled {
